@@ -41,6 +41,9 @@ def whoosh_frame(tb=None, exc=None):
 
 
 def exc_sig(e):
+    import os
+    if os.environ.get("WHOOSIM_TB"):
+        traceback.print_exception(type(e), e, e.__traceback__)
     return "%s@%s" % (type(e).__name__, whoosh_frame(exc=e))
 
 
